@@ -11,7 +11,14 @@ NOTE = ("Trusted base: CrossHair's models of str/int/containers, z3, the stubs l
 
 # property -> (claimed?, level text, design ref)
 CLAIMS = {
+    "C02": ("Per corpus tree, for every reachable user state inside the bounds (incl. a fully symbolic string value per string option): write_config -> fresh load_config reproduces every value and assignment line, raises no default-mismatch / multiple-assignment / unknown-symbol diagnostics, and the second write is byte-identical (no file operation). Also second generation (save, reload into the used instance, one symbolic edit) and the deprecated block.", "DESIGN.md 4/C02"),
     "C03": ("Inductive step for the evaluation caches: for each corpus tree, for every pre-state inside the bounds with all caches filled, and every single operation (set/unset/reset/reset-menu, symbolic value), values read incrementally == values after discarding all caches == values of a fresh instance given the same user state. Solver-exhausted per job.", "DESIGN.md 4/C03"),
+    "C04": ("Per corpus program: both parsers accept/reject alike and build the same menu tree (concrete comparison), and for every user state inside the bounds the two instances agree on values, visibility, sdkconfig, header and JSON (solver-decided). The quantifier over programs is a finite corpus.", "DESIGN.md 4/C04"),
+    "C05": ("Per corpus tree with choices: for every user state (members, picks, condition options), after one further symbolic operation with live caches, and after loading files assigning several members: exactly one visible member is y and it is the specified one (pick, else first satisfied default, else first visible); header / CMake / JSON define only that member.", "DESIGN.md 4/C05"),
+    "C06": ("Per corpus tree with numeric options: for every user state with symbolic ints and the full malformed / negative / huge / differently formatted candidate lists, arriving via set_value or sdkconfig lines: every value is well-formed for its type, inside the active range, and header / CMake / JSON render the same number without raising.", "DESIGN.md 4/C06"),
+    "C07": ("Per corpus tree x rename shape: for every user state, the five output formats (sdkconfig, header, CMake, JSON, auto.conf) read back with small trusted readers agree on presence and value of every option and every deprecated alias (inversion per alias line).", "DESIGN.md 4/C07"),
+    "C09": ("Totality: per accepted corpus tree, for every user state with malformed candidates, every value / visibility / output evaluates without exception. Cycles: all 354 forward-edge x back-edge mutants are rejected at load with a dependency-loop error (enumeration of concrete programs).", "DESIGN.md 4/C09"),
+    "C10": ("Per corpus tree: for every user state, each of the four minimal-config variants (labels x =n normalisation) and kconfgen's variant reloads in a fresh instance to the same value for every option; labelled and unlabelled variants carry the same assignments in the same order.", "DESIGN.md 4/C10"),
 }
 
 NA = {
